@@ -83,7 +83,7 @@ func runC09(c *core.Ctx) {
 		c.Violate("parse", "the comparison template does not parse", map[string]any{"source": src, "observed": pr.Brief()})
 		return
 	}
-	U := gen.PlainDataUniverse()
+	U := gen.ComparableUniverse()
 	reps := c.Pick(4, 16)
 	idx := 0
 	for ai := range U {
@@ -93,7 +93,7 @@ func runC09(c *core.Ctx) {
 				if !c.Mine(idx) {
 					continue
 				}
-				uu := gen.PlainDataUniverse() // fresh values
+				uu := gen.ComparableUniverse() // fresh values
 				ua, ub := uu[ai], uu[bi]
 				ga, gb := ua.Go, ub.Go
 				if rep > 0 {
@@ -237,7 +237,7 @@ func runC09(c *core.Ctx) {
 		}
 	}
 	// ---- reflexivity everywhere: a value equals itself however it is reached and wrapped ------------------------------------
-	for ui, u := range gen.PlainDataUniverse() {
+	for ui, u := range gen.ComparableUniverse() {
 		if !c.Mine(ui) || !c.Begin("reflexive:"+u.Name) {
 			continue
 		}
@@ -250,7 +250,7 @@ func runC09(c *core.Ctx) {
 				}
 			}
 			mk := func() any {
-				v := gen.PlainDataUniverse()[ui].Go
+				v := gen.ComparableUniverse()[ui].Go
 				switch wrap {
 				case "DropV":
 					return gen.DropV{X: v}
